@@ -1,10 +1,13 @@
 package main
 
 import (
+	"bufio"
 	"errors"
 	"hash/fnv"
 	"io"
+	"os"
 	"strings"
+	"testing/iotest"
 
 	g "github.com/bobertlo/gmars"
 )
@@ -152,5 +155,54 @@ func reservedWord(id string) bool {
 // many judged calls were preceded by one.
 func withDisturb(c *Ctx) func() {
 	disturbOn = true
-	return func() { c.Count("judged_reader_calls_preceded_by_unjudged_failing_or_colliding_calls", disturbances) }
+	return func() {
+		c.Count("judged_reader_calls_preceded_by_unjudged_failing_or_colliding_calls", disturbances)
+		for k, v := range deliveries {
+			c.Count("texts_delivered_through_"+k, v)
+		}
+	}
+}
+
+// deliver chooses how the text reaches the reader under test.  What a reader returns is a function of
+// the bytes, not of the io.Reader that carries them: most calls get a strings.Reader, some (chosen by
+// the text, so that replays agree) get one byte per Read, a bufio.Reader, a pipe (*os.File that is not
+// a regular file) or a regular temporary file.
+var deliveries = map[string]int64{}
+
+func deliver(text string) (io.Reader, func()) {
+	if !disturbOn {
+		return strings.NewReader(text), func() {}
+	}
+	h := fnv.New64a()
+	h.Write([]byte(text))
+	h.Write([]byte{1})
+	switch x := h.Sum64() % 24; {
+	case x == 0:
+		deliveries["one_byte_per_read"]++
+		return iotest.OneByteReader(strings.NewReader(text)), func() {}
+	case x == 1:
+		deliveries["bufio"]++
+		return bufio.NewReaderSize(strings.NewReader(text), 16), func() {}
+	case x == 2 && len(text) < 1<<20:
+		pr, pw, err := os.Pipe()
+		if err != nil {
+			break
+		}
+		deliveries["pipe"]++
+		go func() {
+			io.WriteString(pw, text)
+			pw.Close()
+		}()
+		return pr, func() { pr.Close() }
+	case x == 3 && len(text) < 1<<20:
+		f, err := os.CreateTemp(os.Getenv("VERIF_WORK"), "deliver-*.red")
+		if err != nil {
+			break
+		}
+		deliveries["regular_file"]++
+		f.WriteString(text)
+		f.Seek(0, io.SeekStart)
+		return f, func() { f.Close(); os.Remove(f.Name()) }
+	}
+	return strings.NewReader(text), func() {}
 }
